@@ -24,7 +24,7 @@ RULE = ('(a) the C03 history generator (minus queue/sorted-iteration calls Fanou
         '(key class, shard count, hash-seed pair) routing cells')
 DISTINCT = ('cells', 'routing_cells')
 REQUIRED = ('calls_judged', 'histories', 'shard_counts_seen', 'keys_cross_process', 'golden_hashes_compared',
-            'equal_key_pairs', 'check_damage_cases', 'aggregate_calls')
+            'equal_key_pairs', 'check_damage_cases', 'aggregate_calls', 'partial_reopen_cases')
 ASSUMPTIONS = ('iteration order over shards is shard-major by design: compared as a permutation',
                'golden routing was recorded from the pinned commit by tools/mkgolden.py')
 
@@ -323,6 +323,46 @@ def equal_keys(dc, sc, res, shards, label):
         sc.drop(d)
 
 
+def partial_reopen(dc, sc, res, rng, shards, label):
+    """Some shard directories are missing when the cache is reopened (creation interrupted, a damaged shard removed by
+    an operator): the total size limit must still be divided among ALL shards, and data in the surviving shards must
+    be found."""
+    import shutil
+    d = sc.new()
+    f = dc.FanoutCache(d, shards=shards)
+    for i in range(60):
+        f.set('k%d' % i, i)
+    f.close()
+    victims = rng.sample(range(shards), rng.randrange(1, shards))
+    survivors_keys = {}
+    for s_ in range(shards):
+        o = observe.Observer(os.path.join(d, '%03d' % s_))
+        survivors_keys[s_] = [r['key'] for r in o.rows()]
+        o.close()
+    for v in victims:
+        shutil.rmtree(os.path.join(d, '%03d' % v))
+    f = dc.FanoutCache(d, shards=shards)
+    try:
+        res.count('partial_reopen_cases')
+        res.count('evaluations')
+        for s_ in range(shards):
+            o = observe.Observer(os.path.join(d, '%03d' % s_))
+            sl = o.settings().get('size_limit')
+            o.close()
+            if sl != 2**30 / shards:
+                res.violation('after reopening a directory whose shards %r were missing, shard %d stores size_limit %r '
+                              'instead of total/shards = %r' % (sorted(victims), s_, sl, 2**30 / shards), {'label': label})
+                return
+            if s_ not in victims:
+                for k in survivors_keys[s_]:
+                    if f.get(k, 'MISSING') == 'MISSING':
+                        res.violation('key %r of surviving shard %d is not found after reopening' % (k, s_), {'label': label})
+                        return
+    finally:
+        f.close()
+        sc.drop(d)
+
+
 def run_shard(tier, seed, shard, nshards, res):
     dc = common.use_repo()
     probe.install()
@@ -336,6 +376,8 @@ def run_shard(tier, seed, shard, nshards, res):
                 cfg['size_limit'] = gen.pick(rng, [2**29, 2**31, 3 * 2**28])
             history(dc, sc, res, rng, shards, cfg, 'c13 seed=%d shard=%d i=%d shards=%d' % (seed, shard, i, shards))
             check_damage(dc, sc, res, rng, shards, 'c13 damage seed=%d shard=%d i=%d' % (seed, shard, i))
+            if shards > 1:
+                partial_reopen(dc, sc, res, rng, shards, 'c13 partial reopen seed=%d shard=%d i=%d' % (seed, shard, i))
             if res.counters.get('violations_raw', 0) > 8:
                 return
         probe.reset()
